@@ -1,6 +1,7 @@
 import Driver.Loop
 import OPM.Model.Wire
 import OPM.Model.ArgRegex
+import OPM.Model.ArgRegexAst
 namespace Driver.ArgRegex
 open OPM OPM.Wire OPM.ArgRegex
 
@@ -10,6 +11,7 @@ open OPM OPM.Wire OPM.ArgRegex
   `ano <nn> <io> <units> <s>` → `none` | `m <number|~> <unit|~>`
   `ac <ex> <ad> <s>` · `acold <ex> <ad> <s>`   → `none` | `m <option>`
   `ng <pattern>` → list · `gu|ge|ga|guold <pattern>` → `ok <list>` | `err:ValueError`
+  `astn|astno <nn> <io> <units> <ast>` · `astc <ex> <ad> <ast>` → `same` | `differs` (parsed pattern vs model AST)
   `classes` → code points of `\s`, of `re.escape`'s specials, of `[0-9]`, of the group-name characters -/
 
 def decList (s : String) : Option (Option (List Str)) :=
@@ -96,6 +98,18 @@ def step (_ : Unit) (line : String) : Unit × String :=
   | ["ga", p] => match decodeStr p with
     | some p => showList (getAdditive p.toList)
     | none => "bad-op"
+  | ["astn", nn, io, us, a] =>
+    match parseBool nn, parseBool io, decList us, decodeAst a with
+    | some nn, some io, some us, some a => if a = astNumber (lst us) nn io then "same" else "differs"
+    | _, _, _, _ => "bad-op"
+  | ["astno", nn, io, us, a] =>
+    match parseBool nn, parseBool io, decList us, decodeAst a with
+    | some nn, some io, some us, some a => if a = astNumberOptional (lst us) nn io then "same" else "differs"
+    | _, _, _, _ => "bad-op"
+  | ["astc", ex, ad, a] =>
+    match decList ex, decList ad, decodeAst a with
+    | some ex, some ad, some a => if a = astCategorical (lst ex) (lst ad) then "same" else "differs"
+    | _, _, _ => "bad-op"
   | ["classes"] =>
     codePoints isSpace ++ "\t" ++ codePoints isSpecial ++ "\t" ++ codePoints isDigit ++ "\t" ++ codePoints isWord
   | _ => "bad-op")
